@@ -2,10 +2,13 @@
    The reference ECU (Model/Ecu.v, written from ISO 14229-1) refines an abstract store: a map from data
    identifiers to byte strings and a byte-addressed memory.  The client side of each exchange is C07 (the frame
    sent is the ISO encoding of the arguments) and C02 / C14 (the reply decodes to the values the server encoded);
-   the end-to-end composition over whole histories is checked by running the real client and the client model
-   against the extracted ECU (tools/harness/pC12.py). *)
+   the composition of the client model with the ECU is stated below (the theorems named ..._through_the_client) for a client outside
+   suppress / override blocks whose first window admits the ECU's latency; whole histories (failing calls in between,
+   blocks, latencies) are checked by running the real client and the client model against the extracted ECU
+   (tools/harness/pC12.py). *)
 From Coq Require Import ZArith List Bool String.
-From UDS Require Import Lib.Bytes Lib.ErrM Model.Message Model.Client Model.Svc_Did Model.Ecu Proofs.Bytes_lemmas Proofs.C12_lemmas.
+From UDS Require Import Lib.Bytes Lib.ErrM Model.Message Model.Client Model.Services Model.MemLoc Model.Svc_Did Model.Svc_Memory Model.History Model.Ecu
+  Proofs.Bytes_lemmas Proofs.C12_lemmas Proofs.C12b_lemmas.
 Import ListNotations.
 Open Scope Z_scope.
 
@@ -48,3 +51,53 @@ Theorem C12_download_reassembles : forall e addr size blocks,
   e_dids e3 = e_dids e.
 Proof. exact download_reassembles. Qed.
 Print Assumptions C12_download_reassembles.
+
+(* ---- through the client: one client call is run reactively against the ECU (`react`: the ECU processes every frame the client sends,
+   its answer arrives 1 + lat microseconds later).  `plain st`: outside suppress / override blocks; `in_first_window`: the first
+   window (P2, capped by the overall timeout) admits that delay.  Nothing else is assumed about configuration, clock or ECU state. -- *)
+
+(* a value written to a data identifier with write_data_by_identifier is what read_data_by_identifier returns *)
+Theorem C12_did_through_the_client : forall cfg st e did v now now2 lat,
+  plain st -> in_first_window cfg st (1 + lat) -> 0 < did <= 65535 ->
+  fetch_codec (pc_of cfg) did = inr (Z.of_nat (List.length v)) ->
+  let '(_, st1, _, _, e1) := react 4 cfg st e (CWriteDid did v) now lat 0 [] in
+  let '(out, _, _, _, e2) := react 4 cfg st1 e1 (CReadDids [did]) now2 lat 0 [] in
+  (exists r, out = ORet (Some (r, enc_values [(did, v)]))) /\ e2 = e1.
+Proof. exact write_then_read_composed. Qed.
+Print Assumptions C12_did_through_the_client.
+Theorem C12_did_write_through_the_client : forall cfg st e did v now lat,
+  plain st -> in_first_window cfg st (1 + lat) -> 0 <= did <= 65535 ->
+  (exists sh, fetch_codec (pc_of cfg) did = inr sh /\ (sh < 0 \/ Z.of_nat (List.length v) = sh)) ->
+  let '(out, st', t, tr, e') := react 4 cfg st e (CWriteDid did v) now lat 0 [] in
+  (exists r, out = ORet (Some (r, [did]))) /\ st' = st /\ t = now + 1 + lat /\
+  sent_frames tr = [46 :: be_enc 2 did ++ v] /\
+  abs_did e' did = Some v /\ (forall k, k <> did -> abs_did e' k = abs_did e k) /\ e_mem e' = e_mem e /\ e_dl e' = e_dl e.
+Proof. exact write_did_composed. Qed.
+
+(* bytes written to a memory range with write_memory_by_address are what read_memory_by_address of that range returns, for every
+   width combination the location resolves to (explicit, configured or automatic: C14) *)
+Theorem C12_memory_through_the_client : forall cfg st e addr af sf data m na ns now now2 lat,
+  plain st -> in_first_window cfg st (1 + lat) -> data <> [] ->
+  resolves cfg addr (Z.of_nat (List.length data)) af sf m na ns ->
+  let '(_, st1, _, _, e1) := react 4 cfg st e (CWriteMem addr (Z.of_nat (List.length data)) af sf data) now lat 0 [] in
+  let '(out, _, _, _, e2) := react 4 cfg st1 e1 (CReadMem addr (Z.of_nat (List.length data)) af sf) now2 lat 0 [] in
+  (exists r, out = ORet (Some (r, enc_bytes data))) /\ e2 = e1.
+Proof. exact write_then_read_mem_composed. Qed.
+Print Assumptions C12_memory_through_the_client.
+
+(* request_download, any number of blocks of any sizes pushed with transfer_data (counters 1, 2, .., 0xFF, 0, ..), request_transfer_exit:
+   the ECU holds exactly the concatenation of the blocks at the requested address; the data identifiers are untouched *)
+Theorem C12_download_through_the_client : forall cfg st e addr size af sf m na ns blocks now lat now3,
+  plain st -> in_first_window cfg st (1 + lat) -> resolves cfg addr size af sf m na ns -> 0 <= e_blk e < 65536 ->
+  let '(_, st1, t1, _, e1) := react 4 cfg st e (CUpDown false addr size af sf None) now lat 0 [] in
+  let e2 := client_push cfg st1 e1 1 blocks t1 lat in
+  let '(out, _, _, _, e3) := react 4 cfg st1 e2 (CTransferExit None) now3 lat 0 [] in
+  (exists r, out = ORet (Some (r, [0]))) /\ e_dl e3 = None /\
+  mem_read (e_mem e3) addr (List.length (List.concat blocks)) = Some (List.concat blocks) /\ e_dids e3 = e_dids e.
+Proof. exact download_composed. Qed.
+Print Assumptions C12_download_through_the_client.
+(* ... where pushing the blocks through the client is pushing them into the ECU *)
+Theorem C12_blocks_through_the_client : forall cfg st lat, plain st -> in_first_window cfg st (1 + lat) ->
+  forall blocks e d ctr now, e_dl e = Some d -> ctr = dl_next d -> 0 <= ctr <= 255 ->
+  client_push cfg st e ctr blocks now lat = push_blocks e ctr blocks.
+Proof. exact client_push_is_push_blocks. Qed.
